@@ -45,6 +45,7 @@ SALTED = {"md5_crypt": "chars", "apr_md5_crypt": "chars", "sha256_crypt": "chars
           "bsdi_crypt": "fixed", "phpass": "fixed", "bcrypt_sha256": "fixed"}
 PALETTE = sorted(set(COST) | set(SALTED) | {"ldap_md5_crypt", "unix_disabled", "hex_md5", "mysql41"})
 IDENTS = {"bcrypt": ["2a", "2b", "2y", "2", "$2b$", "9z"], "phpass": ["P", "H", "$P$", "Q"], "django_bcrypt": ["2a", "2b"]}
+TRUNC = {"bcrypt": 72, "des_crypt": 8, "django_bcrypt": 72}  # hasher -> size limit in bytes
 ATTRS = ["name", "default_rounds", "min_rounds", "max_rounds", "min_desired_rounds", "max_desired_rounds", "vary_rounds", "rounds_cost",
          "default_salt_size", "min_salt_size", "max_salt_size", "default_ident", "truncate_error", "truncate_size", "default_marker", "version",
          "block_size", "parallelism", "setting_kwds", "context_kwds", "ident_values", "salt_chars", "checksum_size"]
@@ -121,7 +122,7 @@ def generate(rng, prop, tier):
             depth[nnodes] = depth[parent] + 1
             nnodes += 1
         elif r < 0.65:
-            ops.append({"op": "hash", "client": c, "node": rng.choice(mine), "pw": rng.choice(["pw", "x", "pässword"])})
+            ops.append({"op": "hash", "client": c, "node": rng.choice(mine), "pw": rng.choice(["pw", "x", "pässword", "L" * 80, "123456789"])})
         elif r < 0.8:
             ops.append({"op": "needs_update", "client": c, "node": rng.choice(mine), "where": rng.choice(["below", "at-min", "inside", "at-max", "above"])})
         elif r < 0.9:
@@ -197,6 +198,7 @@ class _Node:
         self.vary = 0
         self.salt_size = None
         self.ident = None
+        self.trunc = None  # truncation policy (hashers with a size limit): True = refuse over-long passwords
         self.known = True  # False: settings were inconsistent -> only the hard limits are judged
         self.dirty = False  # attribute written directly by its owner: model no longer speaks about costs
         self.expensive = parent is None  # shipped defaults: never call hash()
@@ -218,6 +220,7 @@ class _W:
             n.lo = getattr(H, "min_desired_rounds", None)
             n.hi = getattr(H, "max_desired_rounds", None)
             n.salt_size = getattr(H, "default_salt_size", None)
+            n.trunc = bool(getattr(H, "truncate_error", False)) if name in TRUNC else None
             self.nodes.append(n)
         self.nglobals = len(self.nodes)
         self.outcomes = set()
@@ -272,6 +275,7 @@ class _W:
         c = _Node(None, base, parent)
         c.lo, c.hi, c.d, c.vary, c.salt_size, c.ident, c.known = parent.lo, parent.hi, parent.d, parent.vary, parent.salt_size, parent.ident, parent.known
         c.dirty = parent.dirty
+        c.trunc = parent.trunc
         c.expensive = False
         verdict = "ok" if not parent.dirty else "either"
         try:
@@ -371,8 +375,12 @@ class _W:
                 return ("must-raise" if kw["marker"] == "x" else "either"), c
             if kw["marker"] == "!!":
                 verdict = "either"
-        if "truncate_error" in kw and base not in ("bcrypt", "des_crypt", "django_bcrypt"):
-            verdict = "either"
+        if "truncate_error" in kw:
+            if base not in TRUNC:
+                verdict = "either"
+            else:
+                v = kw["truncate_error"]
+                c.trunc = v if isinstance(v, bool) else str(v).lower() == "true"
         return verdict, c
 
     # -- judging a derived hasher ------------------------------------------------------------------------------
@@ -476,6 +484,15 @@ class _W:
         r = _call(n.H.hash, op["pw"])
         self.compare(before, self.snapshots(skip=(op["node"],)), f"hash() on node {op['node']}")
         self.ctx.log("hash", op["node"], r[:2])
+        if n.base in TRUNC and n.trunc is not None and not n.dirty and op["pw"].isascii():
+            # (ASCII only: how the limit applies to multi-byte characters is property C05's business, not judged here)
+            over = len(op["pw"].encode("utf-8")) > TRUNC[n.base]
+            refused = r[0] == "exc" and r[1] == "PasswordTruncateError"
+            self.ctx.check(refused == (over and n.trunc), "C09", "truncation-policy-differs-from-settings",
+                           lambda: f"{n.base} (depth {n.depth}) configured truncate_error={n.trunc}: hash of a {len(op['pw'].encode('utf-8'))}-byte password "
+                                   f"(limit {TRUNC[n.base]}) -> {r[:2] if r[0] == 'exc' else 'hashed'}", hasher=n.base)
+            if refused:
+                return
         if r[0] == "exc":
             if n.base == "unix_disabled" or not n.known:
                 return
